@@ -62,4 +62,35 @@ def lastPublished {α : Type} : List (Step α) → Option α
   | .publish x :: rest => (lastPublished rest).orElse (fun _ => some x)
   | .apply :: rest => lastPublished rest
 
+/-! ### one discovery, many watchers that come and go
+  `MultipleServersDiscovery`: `WatchService` registers a fresh channel, `RemoveWatcher` (from
+  `xClient.Close`) takes one out, `Update` hands the list to every channel registered at that moment
+  and records it as the current list; all three run under the discovery's mutex, so each is one
+  step.  A client built by `NewXClient` starts from the current list (`GetServices`). -/
+
+structure Hub (α : Type) where
+  current : Option α                   -- what GetServices returns (none = the construction-time list)
+  ws : List (Nat × Watcher α)          -- registered watchers, in registration order
+deriving Repr
+
+inductive HubStep (α : Type)
+  | watch (id : Nat)       -- NewXClient: load the current list, register a watcher
+  | remove (id : Nat)      -- xClient.Close → RemoveWatcher
+  | publish (x : α)        -- Update
+  | apply (id : Nat)       -- one iteration of that client's watch loop
+
+def hubStep {α : Type} (cap : Nat) (h : Hub α) : HubStep α → Hub α
+  | .watch id => if h.ws.any (·.1 == id) then h else { h with ws := h.ws ++ [(id, ⟨[], h.current⟩)] }
+  | .remove id => { h with ws := h.ws.filter (fun e => e.1 != id) }
+  | .publish x => { current := some x, ws := h.ws.map (fun e => (e.1, notify cap e.2 x)) }
+  | .apply id => { h with ws := h.ws.map (fun e => if e.1 == id then (e.1, applyOne e.2) else e) }
+
+def hubRun {α : Type} (cap : Nat) (h : Hub α) (steps : List (HubStep α)) : Hub α :=
+  steps.foldl (hubStep cap) h
+
+def hubLastPublished {α : Type} : List (HubStep α) → Option α
+  | [] => none
+  | .publish x :: rest => (hubLastPublished rest).orElse (fun _ => some x)
+  | _ :: rest => hubLastPublished rest
+
 end Rpcx.Disc
